@@ -26,6 +26,7 @@ EXPLANATION = (
     ' R5 also requires every single-register write command to hand the validator exactly the value expression it puts on the wire (wire-value).'
     ' (R6, shared with C07.R4) every path of the receive callbacks hands the received bytes to the validator: no ad-hoc test of the bytes filters frames or continuation fragments out beforehand.'
     ' (R7, shared with C18.R1) the command factories hand their arguments on unchanged, so the echo of a write is compared with the value the caller passed.'
+    ' (R8) execute() returns ProtocolResponse(<result of the future>, self) exactly when that result is not None and fails the request otherwise; (R5 wire-count) a multi-register write expects the echo of the register count it announces, for every payload length 2..246.'
 )
 
 
@@ -43,6 +44,48 @@ def _hexval(s: str) -> Optional[int]:
         return int(s, 16)
     except ValueError:
         return None
+
+
+def execute_delivers(ctx: Ctx, rep: Report, rule: str):
+    """ProtocolCommand.execute: the bytes set_result() put on the future (the validated frame, C01.R1) are what the caller
+    gets - wrapped as ProtocolResponse(<those bytes>, <this command>) - on the path where they are not None; the other
+    outcome of that test is a RequestFailedException.  (Paths without exceptions; the handlers are C09's business.)"""
+    from ..paths import enumerate_paths, no_raise
+    from ..replay import Replay
+    prog = ctx.prog
+    ex = prog.cls("ProtocolCommand").methods.get("execute")
+    if ex is None:
+        raise AnalysisError("ProtocolCommand.execute not found")
+    rfe = prog.cls("RequestFailedException")
+    nret = nraise = 0
+    for p in enumerate_paths(prog, ex, no_raise):
+        rp = Replay(prog, ex, p)
+        rcalls = [(i, ev.node) for i, ev in enumerate(p.events) if ev.kind == "call" and isinstance(ev.node.func, ast.Attribute) and ev.node.func.attr == "result" and not ev.node.args]
+        if len(rcalls) != 1:
+            rep.violation(rule, "execute:result-calls:%s" % p.describe(4), ex.loc(), "ProtocolCommand.execute reads the future's result %d times on one path [path %s]" % (len(rcalls), p.describe(6)))
+            continue
+        ri, rnode = rcalls[0]
+        rterm = rp.sym_at(ri + 1).lin(rnode)
+        isnone = None
+        for i, ev in enumerate(p.events):
+            if ev.kind == "test" and isinstance(ev.node, ast.Compare) and len(ev.node.ops) == 1 and isinstance(ev.node.ops[0], (ast.Is, ast.IsNot, ast.Eq, ast.NotEq)) \
+                    and isinstance(ev.node.comparators[0], ast.Constant) and ev.node.comparators[0].value is None and rp.sym_at(i).lin(ev.node.left) == rterm:
+                isnone = bool(ev.data) if isinstance(ev.node.ops[0], (ast.Is, ast.Eq)) else not bool(ev.data)
+        if p.end == "return":
+            nret += 1
+            v = p.end_node.value
+            ok = isinstance(v, ast.Call) and norm(v.func) == "ProtocolResponse" and len(v.args) == 2 and rp.sym.lin(v.args[0]) == rterm and norm(v.args[1]) == "self" and isnone is False
+            rep.check(ok, rule, "execute:return:%s" % p.describe(4), ex.loc(p.end_node), "execute returns ProtocolResponse(<result of the future>, self) when that result is not None",
+                      bad="ProtocolCommand.execute returns %s %s: the caller does not get the frame the validator accepted [path %s]" % (
+                          norm(v) if v is not None else "nothing", "without having found the result not None" if isnone is not False else "", p.describe(6)))
+        elif p.end == "raise":
+            nraise += 1
+            ok = p.end_data is rfe and isnone is True
+            rep.check(ok, rule, "execute:fail:%s" % p.describe(4), ex.loc(p.end_node), "execute fails the request with RequestFailedException when the future's result is None",
+                      bad="ProtocolCommand.execute raises %s %s: a request whose future was completed with an accepted frame fails [path %s]" % (
+                          prog.exc_name(p.end_data), "although the result was found to be not None" if isnone is False else "without testing the result against None", p.describe(6)))
+    if nret == 0:
+        raise AnalysisError("ProtocolCommand.execute has no returning path")
 
 
 def check(ctx: Ctx, rep: Report):
@@ -63,6 +106,8 @@ def check(ctx: Ctx, rep: Report):
     _factories(ctx, _sub, ctx.memo("wire", lambda: _Wire(ctx)))
     for o in _sub.obligations:
         rep.obligations.append(type(o)("C02.R7", o.key, o.where, o.what, o.status, o.detail))
+    rep.rule("C02.R8", "an accepted frame is the result of the request: execute() returns ProtocolResponse(<what the future was completed with>, self) exactly when that is not None, and fails the request otherwise", 2)
+    execute_delivers(ctx, rep, "C02.R8")
     rep.rule("C02.R5", "echoed write value is compared in two's complement and every written value is in the signed 16-bit domain", 6)
     for fam in fams.values():
         rep.analysed_add("functions", fam.validator.qualname)
@@ -214,6 +259,25 @@ def r3(ctx: Ctx, rep: Report, fams: Dict[str, Family]):
                               "%s expects the echo of exactly the value it sends (%s)" % (sub.name, norm(sent) if sent is not None else "?"),
                               bad="%s sends %s but tells the validator to expect %s: for values where the two differ (negative numbers as two's complement) the inverter's correct echo is refused" % (
                                   sub.name, norm(sent) if sent is not None else "?", norm(expected) if expected is not None else "?"))
+            # multi-register writes: the answer echoes the register count the builder announces (bytes / 2); the value the
+            # validator compares it with must be that count for every payload length of the domain (2..246 bytes, even)
+            if fam.kind != "aa55" and isinstance(req, ast.Call) and "value" in init.params:
+                ctm = res.resolve_call(req, sinit)
+                if ctm.funcs and "values" in ctm.funcs[0].params and "value" not in ctm.funcs[0].params:
+                    sent, expected = arg_for(req, ctm.funcs[0], "values"), arg_for(sup[0], init, "value")
+                    okm, why_m = isinstance(sent, ast.Name) and expected is not None, "the payload is not a parameter"
+                    if okm:
+                        for k in range(2, 248, 2):
+                            try:
+                                got = prog.consteval(expected, sinit.module, {sent.id: bytes(k)})
+                            except NotConst:
+                                okm, why_m = False, "%s is not a function of the payload alone" % norm(expected)
+                                break
+                            if got != k // 2:
+                                okm, why_m = False, "for a payload of %d bytes it expects %r registers, the frame announces %d" % (k, got, k // 2)
+                                break
+                    rep.check(okm, "C02.R5", "wire-count:%s" % sub.name, sinit.loc(sup[0]), "%s expects the echo of the register count it announces (len(%s) // 2)" % (sub.name, norm(sent) if sent is not None else "?"),
+                              bad="%s tells the validator to expect the register count %s: %s - the inverter's correct echo is refused" % (sub.name, norm(expected) if expected is not None else "?", why_m))
             rep.check(ok, "C02.R3", "wire-register:%s" % sub.name, sinit.loc(sup[0]),
                       "%s puts the same register on the wire that it records as first_address / expects echoed" % sub.name,
                       bad="%s: register sent (%s) and register recorded (%s) differ" % (sub.name, norm(wire) if wire is not None else "?", norm(off_arg) if off_arg is not None else "?"))
